@@ -21,7 +21,7 @@ LEVEL_TEXT = ("every DBAPI call and instrumented pool-listener call of each seed
 LEVEL_NOTE = ("trusts the ledger DBAPI/dialect stubs and the virtual clock; single caller thread; BaseException faults are tabulated only; "
               "StaticPool soft invalidation is excluded as documented-unsupported")
 TIERS = {
-    "quick": {"runs": 1600, "secs": 25},
+    "quick": {"runs": 2400, "secs": 30},
     "thorough": {"runs": 60000, "secs": 420, "hashseeds": [0, 1, 2, 3]},
 }
 SHRINK = ["prog", "faults"]
